@@ -56,6 +56,15 @@ fn assert_open_pinned(rl: &RaftLog<RTypes>) {
     }
 }
 
+/// the file that continues the journal ends exactly where the journal ends
+/// (the next write lands where the offsets say it does)
+fn assert_open_file_consistent(rl: &RaftLog<RTypes>) {
+    let slot = gfs::find_chunk(rl.wal.open.chunk.chunk_id().0);
+    assert!(slot.is_some(), "the chunk that continues the journal has no file");
+    let f = &gfs::fs().files[slot.unwrap()];
+    assert!(f.exists && f.len == rl.wal.open.chunk.global_end() - rl.wal.open.chunk.global_start(), "leftover bytes between the recovered journal end and the end of the file that continues the journal");
+}
+
 fn untouched(slot: usize, len: usize) -> bool {
     let f = &gfs::fs().files[slot];
     f.exists && f.n_set_len == 0 && f.n_write == 0 && f.len == len as u64
@@ -85,6 +94,7 @@ replay_proof! {
         match open(replay_config(None)) {
             Some(rl) => {
                 assert_matches(&rl, &m);
+                assert_open_file_consistent(&rl);
                 assert_cached(&rl, &m);
                 assert!(rl.wal.closed.len() == 0, "a healthy last chunk is reopened for appending");
                 assert!(rl.wal.open.chunk.global_end() == end as u64, "journal does not continue at the end of the reopened chunk");
@@ -307,6 +317,7 @@ replay_proof! {
         match open(replay_config(None)) {
             Some(rl) => {
                 assert_matches(&rl, &m);
+                assert_open_file_consistent(&rl);
                 assert_open_pinned(&rl);
                 assert_cached(&rl, &m);
                 assert!(rl.wal.closed.len() == 1 && rl.wal.open.chunk.global_start() == end0 as u64, "chunks not chained");
@@ -416,6 +427,7 @@ fn torn_tail(k: usize, then_write: u8) {
             assert!(rl.wal.closed.len() == 1, "a truncated chunk must not be reused for appending");
             assert!(rl.wal.open.chunk.global_start() == e1 as u64, "new chunk does not start at the recovered end");
             assert!(gfs::find_chunk(e1 as u64).is_some(), "no file created for the new chunk");
+            assert_open_file_consistent(&rl);
             kani::cover!(true, "recovered from a torn tail");
             if then_write == 1 {
                 let v: Id = kani::any();
@@ -537,6 +549,7 @@ fn empty_newest(len1: usize) {
     match open(replay_config(None)) {
         Some(rl) => {
             assert_matches(&rl, &m);
+                assert_open_file_consistent(&rl);
             assert_open_pinned(&rl);
             assert_cached(&rl, &m);
             assert!(untouched(0, end0), "an older chunk was modified by recovery");
@@ -792,6 +805,35 @@ replay_proof! {
                 core::mem::forget(rl);
             }
             None => assert!(false, "open of a cleanly written directory failed"),
+        }
+    }
+}
+
+// Whatever the configuration: IF a crash image with a torn tail is opened,
+// the file that continues the journal ends exactly where the journal says it
+// ends - otherwise the next (acknowledged) writes land behind leftover bytes
+// and are misread or lost at the following restart. With truncation disabled
+// the image is refused (C10); this harness states the C03 obligation that
+// must hold should it ever be accepted.
+// @harness name=c03_accepted_image_has_no_leftover prop=C03 tier=quick timeout=1200 fs=512 allow_unsat=accepted
+replay_proof! {
+    unwind = 10, crc = off,
+    fn c03_accepted_image_has_no_leftover() {
+        let mut im = Img::new(0, 0);
+        im.state(None, None, None, None, None);
+        let e1 = im.append(any_id(), P::new(1, kani::any()));
+        im.commit(kani::any());
+        im.commit_len();
+        gfs::fs().files[0].len = (e1 + 5) as u64;
+        match open(replay_config(Some(false))) {
+            Some(rl) => {
+                kani::cover!(true, "accepted");
+                assert_open_file_consistent(&rl);
+                core::mem::forget(rl);
+            }
+            None => {
+                kani::cover!(true, "refused");
+            }
         }
     }
 }
